@@ -75,6 +75,13 @@ class ModelsMixin(object):
                 return self.bytes_concat([a, b])
             if is_strlike(a) and is_strlike(b):
                 return self.str_concat([a, b])
+            if type(a).__name__ == "SVSeq" or type(b).__name__ == "SVSeq":
+                from .seqs import SVSeq
+                ta = a.term if isinstance(a, SVSeq) else self._vseq_of_list(a)
+                tb = b.term if isinstance(b, SVSeq) else self._vseq_of_list(b)
+                if ta is None or tb is None:
+                    self.unsupported("concatenation with a symbolic list of values")
+                return SVSeq(z3.Concat(ta, tb))
             if isinstance(a, SSeq) and isinstance(b, (list, SSeq)):
                 return self.sseq_concat(a, b)
             if isinstance(a, list) and isinstance(b, SSeq):
@@ -263,7 +270,7 @@ class ModelsMixin(object):
         if isinstance(v, SStr):
             ln = z3.simplify(z3.Length(v.term))
             return ln.as_long() if z3.is_int_value(ln) else SInt(ln)
-        if isinstance(v, SSeq):
+        if isinstance(v, SSeq) or type(v).__name__ == "SVSeq":
             return SInt(z3.Length(v.term))
         if isinstance(v, SObj):
             m = self.class_lookup(v.cls, "__len__")
@@ -591,6 +598,13 @@ class ModelsMixin(object):
             return SBool(str_term(a) == str_term(b))
         if isinstance(a, SSeq) and isinstance(b, SSeq):
             return SBool(a.term == b.term)
+        from .seqs import SVSeq
+        if isinstance(a, SVSeq) or isinstance(b, SVSeq):
+            ta = a.term if isinstance(a, SVSeq) else self._vseq_of_list(a)
+            tb = b.term if isinstance(b, SVSeq) else self._vseq_of_list(b)
+            if ta is None or tb is None:
+                return False
+            return SBool(ta == tb)
         if isinstance(a, SSeq) and isinstance(b, list):
             if len(b) == 0:
                 return SBool(z3.Length(a.term) == 0)
@@ -600,6 +614,15 @@ class ModelsMixin(object):
             return self.eq(b, a)
         # different kinds never compare equal
         return False
+
+    def _vseq_of_list(self, lst):
+        from .seqs import VSEQ
+        if not isinstance(lst, list) or not all(is_byteslike(x) for x in lst):
+            return None
+        if not lst:
+            return z3.Empty(VSEQ)
+        units = [z3.Unit(bytes_term(x)) for x in lst]
+        return units[0] if len(units) == 1 else z3.Concat(*units)
 
     def seq_eq(self, a, b):
         if len(a) != len(b):
@@ -673,7 +696,11 @@ class ModelsMixin(object):
             if is_intlike(item):
                 self.unsupported("int in bytes")
             self.py_raise(TypeError, "a bytes-like object is required")
-        from .seqs import SMapSeq
+        from .seqs import SMapSeq, SVSeq
+        if isinstance(container, SVSeq):
+            if not is_byteslike(item):
+                return False
+            return SBool(z3.Contains(container.term, z3.Unit(bytes_term(item))))
         if isinstance(container, SMapSeq):
             import hashlib
             if is_byteslike(item):
@@ -761,7 +788,30 @@ class ModelsMixin(object):
 
     # ================================================================ methods of symbolic values
     def call_sym_method(self, recv, name, args, kwargs):
-        from .seqs import SymDict
+        from .seqs import SymDict, SVSeq
+        if isinstance(recv, SVSeq):
+            if name == "append":
+                if not is_byteslike(args[0]):
+                    self.unsupported("append of a non-bytes value to a list of bytes values")
+                recv.term = z3.Concat(recv.term, z3.Unit(bytes_term(args[0])))
+                return None
+            if name == "copy":
+                return SVSeq(recv.term)
+            if name == "__len__":
+                return SInt(z3.Length(recv.term))
+            if name == "remove":
+                from .seqs import VSEQ
+                if not is_byteslike(args[0]):
+                    self.py_raise(ValueError, "list.remove(x): x not in list")
+                u = z3.Unit(bytes_term(args[0]))
+                if not self.branch(z3.Contains(recv.term, u)):
+                    self.py_raise(ValueError, "list.remove(x): x not in list")
+                pre = z3.Const(self.fresh_name("rm.pre"), VSEQ)
+                post = z3.Const(self.fresh_name("rm.post"), VSEQ)
+                self.assume_raw(z3.And(recv.term == z3.Concat(pre, u, post), z3.Not(z3.Contains(pre, u))))
+                recv.term = z3.Concat(pre, post)
+                return None
+            self.unsupported("method %s of a symbolic list of values" % name)
         from .interp import SymDictKeys
         if isinstance(recv, SymDict):
             return self.symdict_method(recv, name, args, kwargs)
@@ -1052,6 +1102,9 @@ class ModelsMixin(object):
             o = SSeq(v.term, v.elem, v.struct)
             memo[id(v)] = o
             return o
+        if type(v).__name__ == "SVSeq":
+            from .seqs import SVSeq
+            return SVSeq(v.term)
         if isinstance(v, list):
             o = []
             memo[id(v)] = o
